@@ -3,7 +3,8 @@
    statements of C08 (EqualType decides it on well-formed types over an accepted environment). *)
 Require Import Grits.Base Grits.STypes Grits.Forms Grits.TcDeps Grits.Tc Grits.TcTop Grits.spec.Typing
                Grits.proofs.TcLemmas Grits.proofs.TypingSound Grits.proofs.TypingSoundTop
-               Grits.proofs.TypingComplete Grits.proofs.TypingCompleteTop Grits.proofs.TypingVerdict.
+               Grits.proofs.TypingComplete Grits.proofs.TypingCompleteTop Grits.proofs.TypingVerdict
+               Grits.spec.SynOk Grits.proofs.TypingBisim Grits.proofs.Acyclic.
 
 Theorem C07_unfold_spec : forall D t h, unfold D t = Ok (Some h) <-> head D t h.
 Proof. exact unfold_spec. Qed.
@@ -30,6 +31,32 @@ Theorem C07_well_typed_not_rejected : forall teq, teq_decided teq -> forall p, P
   typecheck p <> Reject /\ (forall w, typecheck p <> RejectInternal w) /\ (forall w, typecheck p <> Diverge w).
 Proof. exact well_typed_not_rejected. Qed.
 
+(* ---- closed with C08: type agreement = bisimilarity of the infinite unfoldings (spec/TypEq.v).
+   Premise: every type occurring in the program is syntactically what the parser produces
+   (spec/SynOk.prog_syn_ok, a boolean; evaluated by the model driver on every program of the check). *)
+Theorem C07_verdict_bisim : forall p, prog_syn_ok p = true -> (accepts p <-> ProgOK teq_bisim p).
+Proof. exact tc_verdict_bisim. Qed.
+
+Theorem C07_sound_bisim : forall p p', prog_syn_ok p = true -> typecheck p = Accept p' -> ProgOK teq_bisim p.
+Proof. exact tc_sound_bisim. Qed.
+
+Theorem C07_complete_bisim : forall p, prog_syn_ok p = true -> ProgOK teq_bisim p -> exists p', typecheck p = Accept p'.
+Proof. exact tc_complete_bisim. Qed.
+
+Theorem C07_well_typed_not_rejected_bisim : forall p, prog_syn_ok p = true -> ProgOK teq_bisim p ->
+  typecheck p <> Reject /\ (forall w, typecheck p <> RejectInternal w) /\ (forall w, typecheck p <> Diverge w).
+Proof. exact well_typed_not_rejected_bisim. Qed.
+
+(* the acyclicity condition of ProgOKe (stated with the marking iteration) means: the "uses" relation
+   among the process declarations is well founded *)
+Theorem C07_acyclic_spec : forall ps, NoDup (all_providers ps) -> (deps_acyclic ps = true <-> ProcsGrounded ps).
+Proof. exact procs_grounded_iff. Qed.
+
+Print Assumptions C07_acyclic_spec.
+Print Assumptions C07_verdict_bisim.
+Print Assumptions C07_sound_bisim.
+Print Assumptions C07_complete_bisim.
+Print Assumptions C07_well_typed_not_rejected_bisim.
 Print Assumptions C07_unfold_spec.
 Print Assumptions C07_sound.
 Print Assumptions C07_complete.
